@@ -270,7 +270,20 @@ def run_eventlog(case: dict) -> Result:
 # ConsumerGroup
 
 
-STRATS = {"range": RangeAssignment, "roundrobin": RoundRobinAssignment, "sticky": StickyAssignment}
+class _SparseFirstMember:
+    """Round 8: a user-supplied assignment strategy (the protocol is public).  Every partition goes to the first member
+    in name order and members that get nothing are left out of the mapping, which the group tolerates
+    (`assignments.get(name, [])`).  A member that loses everything in a rebalance must then own nothing (C19-r8-1:
+    `_rebalance` merged the new table into the old one, so the omitted member kept its partitions and every partition
+    had two owners)."""
+
+    def assign(self, partitions, consumers):
+        if not consumers:
+            return {}
+        return {sorted(consumers)[0]: sorted(partitions)}
+
+
+STRATS = {"range": RangeAssignment, "roundrobin": RoundRobinAssignment, "sticky": StickyAssignment, "user_sparse": _SparseFirstMember}
 
 
 def gen_group(rng: random.Random, tier: str) -> dict:
@@ -666,7 +679,7 @@ def run_group(case: dict) -> Result:
         out = strat.assign(list(ps), list(ms))
         res.count("strategy_calls_checked")
         _check_assignment(res, type(strat).__name__, "direct-call", out, ps, ms, f"call #{k} assign({ps}, {ms})")
-        if ms and sorted(out) != sorted(ms):
+        if ms and sorted(out) != sorted(ms) and strat_name != "user_sparse":
             res.add("assignment-keys-differ-from-members", type(strat).__name__, "direct-call", f"call #{k}: members {ms}, result keys {sorted(out)}")
 
     res.count("records_polled", n_polled)
